@@ -120,6 +120,30 @@ func (g *bundleGen) plantPlus() {
 			g.addRootDef("usesBack", obj{"type": "array", "items": obj{"$ref": refTo(rd, ad, "definitions", name)}})
 		}
 	}
+	if g.on("plusCollideRefs") && len(g.docs) > 1 && r.P(40) {
+		// two imported definitions that are mutually recursive through items/additionalProperties and BOTH collide by
+		// name with root definitions
+		ad := g.docs[1]
+		g.addRootDef("node", obj{"type": "object", "properties": obj{"rootNode": obj{"type": "string"}}})
+		g.addRootDef("leaf", obj{"type": "object", "properties": obj{"rootLeaf": obj{"type": "integer"}}})
+		container := func(ref obj) obj {
+			if r.P(50) {
+				return obj{"type": "array", "items": ref}
+			}
+			return obj{"type": "object", "additionalProperties": ref}
+		}
+		if r.P(30) {
+			container = func(ref obj) obj { return obj{"type": "object", "properties": obj{"p": ref}} }
+		}
+		for _, n := range []string{"node", "leaf"} {
+			if _, ok := ad.defs[n]; !ok {
+				ad.defNames = append(ad.defNames, n)
+			}
+		}
+		ad.defs["node"] = container(obj{"$ref": "#/definitions/leaf"})
+		ad.defs["leaf"] = container(obj{"$ref": "#/definitions/node"})
+		g.addRootOp("/mutual", obj{"$ref": refTo(rd, ad, "definitions", "node")})
+	}
 	if g.on("plusContainerRec") {
 		switch r.Intn(4) {
 		case 0:
@@ -492,7 +516,7 @@ func judgeFault(c *Case, v *Verdict, api string, base, a *apiObs, f Fault) bool 
 		return true
 	}
 	// transient fault survived: the result must then be a complete, correct result — never a silent half-result
-	if cl, d := checkMeaning(c.Disk, c.Root, a.flat.Out, c.Opts); cl != "" && c.Class == "W" {
+	if cl, d := checkMeaningTolerant(c.Disk, c.Root, a.flat.Out, c.Opts); cl != "" && c.Class == "W" {
 		v.fail("C09", "silent-half-result-after-transient-fault", f.Kind+"|"+modeOf(c.Opts)+"|"+cl, fmt.Sprintf("Flatten (options %s) returned nil after fault %s@%d but the output does not mean the same as the bundle: %s", c.Opts, f.Kind, f.K, d))
 		return true
 	}
